@@ -16,7 +16,7 @@ RULE = ('Hypothesis RuleBasedStateMachine over the ASan+UBSan agent with 1-3 pre
         'of the descriptor table: a new descriptor is never in the live set; 0-2 reach the prepared standard-stream files; '
         'pre-opens report their path (length and bytes); closed / never-issued descriptors give EBADF from every call; any '
         'AddressSanitizer report (double free, use after free) or agent death is a violation. Non-trivial = history that uses a '
-        'descriptor after closing it, closes twice, or uses a closed descriptor as a directory handle; distinct by history.')
+        'descriptor after closing it, closes twice, or uses a closed descriptor as a directory handle; distinct by history. Many-descriptors job: up to 131080 descriptors issued in one process (opened and closed in turn, a last batch kept open; counts around table sizes 2^k and 65536), then never-issued numbers behind the last one and at the next powers of two are BADF for every call, closed ones are BADF, live ones work and stay alive when their neighbours are closed; every case is non-trivial. Transfers POSIX refuses on the standard streams (write to 0, read from 1 or 2) are BADF.')
 ASSUME = ['descriptor numbers are issued by wasi.c; the model only requires freshness, not a particular numbering']
 
 NONTRIVIAL = ('use_after_close', 'double_close', 'closed_as_directory', 'never_issued', 'listed_before_close', 'readdir_on_vanished_directory', 'closed_standard_stream')
